@@ -34,6 +34,9 @@ pub enum Kind {
     StalledWithFdtUpdates,
     /// thousands of FDT instances (distinct ids) that are complete but already expired when they arrive
     ExpiredFdtInstances,
+    /// thousands of VALID single-packet FDT instances (distinct ids, each announcing another TOI), every one received
+    /// twice (carousel repetition): only a bounded number of instances is current
+    RepeatedValidFdtInstances,
     /// many objects that lose a symbol but whose close-object packet arrives (they end interrupted)
     InterruptedObjects,
     /// Reed-Solomon under-specified (scheme 129) packets whose Source Block Length field announces blocks much
@@ -50,6 +53,9 @@ pub struct Scn {
     pub cache: usize,
     pub max_objects_error: usize,
     pub object_timeout_ms: u64,
+    /// object_receive_once = false (only with RepeatedValidFdtInstances)
+    #[serde(default)]
+    pub receive_once_off: bool,
     pub session_timeout_ms: Option<u64>,
     /// object_timeout = None: stalled objects only go away with their session (needs a session timeout)
     #[serde(default)]
@@ -82,8 +88,9 @@ pub fn gen(idx: u64, rng: &mut Rng, tier: Tier) -> Scn {
         Kind::InterruptedObjects,
         Kind::LyingBlockLength,
         Kind::FilterChurn,
+        Kind::RepeatedValidFdtInstances,
     ];
-    let kind = kinds[(idx % 12) as usize];
+    let kind = kinds[(idx % 13) as usize];
     let cache = *rng.pick(&[1024usize, 4096, 16 * 1024, 64 * 1024, if tier == Tier::Thorough { 1024 * 1024 } else { 32 * 1024 }]);
     let scheme = match kind {
         Kind::MissingSymbol | Kind::StalledWithFdtUpdates | Kind::InterruptedObjects => Scheme::NoCode,
@@ -102,6 +109,7 @@ pub fn gen(idx: u64, rng: &mut Rng, tier: Tier) -> Scn {
         factor: 20,
         cleanup_every: *rng.pick(&[0u32, 0, 50, 1]),
         wall_clock: *rng.pick(&[0u8, 0, 0, 1, 2]),
+        receive_once_off: kind == Kind::RepeatedValidFdtInstances && rng.chance(0.6),
     }
 }
 
@@ -173,7 +181,7 @@ pub fn run(scn: &Scn, ctx: &Ctx, scratch: &Path) {
         session_timeout_ms: scn.session_timeout_ms,
         object_timeout_ms: if scn.no_object_timeout && scn.session_timeout_ms.is_some() && scn.kind != Kind::StalledWithFdtUpdates { None } else { Some(scn.object_timeout_ms) },
         cache_size: Some(scn.cache),
-        receive_once: true,
+        receive_once: !scn.receive_once_off,
         expiry_check: true,
         md5_check: true,
     };
@@ -253,6 +261,21 @@ pub fn run(scn: &Scn, ctx: &Ctx, scratch: &Path) {
                     i, i, pad
                 );
                 traffic.extend(wire::packetise_fdt(xml.as_bytes(), 1, i as u32, 1400, None, None));
+            }
+            block_bytes = 4 * e;
+        }
+        Kind::RepeatedValidFdtInstances => {
+            // single-packet FDT instances, each with a new id and a lifetime far in the future, each delivered twice
+            let n = scn.factor as usize * 40;
+            for i in 1..=n {
+                let pad = "x".repeat((scn.e as usize).min(900));
+                let xml = format!(
+                    "<?xml version=\"1.0\" encoding=\"UTF-8\"?><FDT-Instance xmlns=\"urn:IETF:metadata:2005:FLUTE:FDT\" Expires=\"4100000000\"><File TOI=\"{}\" Content-Location=\"file:///valid/{}/{}\" Content-Length=\"10\" Transfer-Length=\"10\" FEC-OTI-FEC-Encoding-ID=\"0\" FEC-OTI-Maximum-Source-Block-Length=\"4\" FEC-OTI-Encoding-Symbol-Length=\"16\"/></FDT-Instance>",
+                    i, i, pad
+                );
+                let pk = wire::packetise_fdt(xml.as_bytes(), 1, i as u32, 1400, None, None);
+                traffic.extend(pk.iter().cloned());
+                traffic.extend(pk);
             }
             block_bytes = 4 * e;
         }
@@ -461,6 +484,7 @@ pub fn run(scn: &Scn, ctx: &Ctx, scratch: &Path) {
         Kind::ManyFdtIds => "inject-many-fdt-ids",
         Kind::ManySessions => "inject-many-sessions",
         Kind::ExpiredFdtInstances => "inject-expired-fdt-instances",
+        Kind::RepeatedValidFdtInstances => "inject-repeated-valid-fdt-instances",
         Kind::InterruptedObjects => "drop-class-first-symbol-keep-close-object",
         Kind::LyingBlockLength => "inject-lying-source-block-length",
         Kind::FilterChurn => "tsi-filter-churn",
@@ -521,6 +545,18 @@ pub fn run(scn: &Scn, ctx: &Ctx, scratch: &Path) {
                 );
             }
         }
+        Kind::RepeatedValidFdtInstances => {
+            // a bounded number of instances is current, whatever the number of ids seen
+            let bound = 160 * 1024;
+            if worst_growth > bound {
+                violate(
+                    ctx,
+                    "C17/valid-fdt-instances-accumulate",
+                    if scn.receive_once_off { "receive-once-off" } else { "-" },
+                    format!("{} valid FDT instances (new id each, each received twice) made the receiver hold {} bytes (bound {})", traffic.len() / 2, worst_growth, bound),
+                );
+            }
+        }
         Kind::InterruptedObjects => {
             if max_err == 0 && scn.max_objects_error >= 1 {
                 ctx.borrow_mut().note("note:interrupted-objects-not-counted-in-error");
@@ -529,7 +565,9 @@ pub fn run(scn: &Scn, ctx: &Ctx, scratch: &Path) {
         _ => {}
     }
     // after the timeouts a cleanup releases everything
-    let wait = scn.object_timeout_ms.max(scn.session_timeout_ms.unwrap_or(0)) * 1000 + 1_000_000;
+    // (half a timeout later, not a whole second: a timeout of 10 ms or 500 ms has elapsed by then)
+    let longest = scn.object_timeout_ms.max(scn.session_timeout_ms.unwrap_or(0)) * 1000;
+    let wait = longest + longest / 2 + 1000;
     t += wait;
     // ONE cleanup after the timeouts have elapsed releases everything
     rr.cleanup(t);
@@ -553,6 +591,7 @@ pub fn run(scn: &Scn, ctx: &Ctx, scratch: &Path) {
             "C17/memory-not-released-after-timeouts",
             match scn.kind {
                 Kind::ManyFdtIds => "unfinished-fdt-instances",
+                Kind::RepeatedValidFdtInstances => "completed-fdt-instances",
                 Kind::ManySessions => "idle-sessions",
                 Kind::FilterChurn => "tsi-filter-entries",
                 Kind::ManyTois => "stalled-objects",
